@@ -47,6 +47,8 @@ pub enum ByteOp {
     Torn { cut: usize, other_slot: usize },
     /// The read returns the bytes of another slot.
     Misdirect { other_slot: usize },
+    /// The same delta is xored into two bytes `dist` apart (correlated corruption).
+    XorPair { pos: usize, dist: usize, delta: u8 },
     /// The reader presents a variant of the authentication data: 0 = absent <-> empty (same
     /// content, must still open), otherwise different content (must be refused).
     AadVariant { mode: u8 },
@@ -209,6 +211,8 @@ pub enum SweepMode {
     BitFlips,
     Truncations,
     ByteOverwrites,
+    /// The same bit flipped in two bytes 1, 8, 16 or 32 apart.
+    XorPairs,
 }
 
 impl Ev {
